@@ -27,7 +27,7 @@ LENGTHS = {
 }
 
 PATTERNS = {
-    'POL': [['Is'], ['k2', 'km'], ['R1t', 'R1'], ['R1', 'R2'], ['R1', 'R1t'], ['R2t', 'R1t'], ['R1', 'H'], ['R2t', 'H'], ['Pol', 'H']],
+    'POL': [['Rnp', 'R2'], ['R1t', 'Rnp'], ['Is'], ['k2', 'km'], ['R1t', 'R1'], ['R1', 'R2'], ['R1', 'R1t'], ['R2t', 'R1t'], ['R1', 'H'], ['R2t', 'H'], ['Pol', 'H']],
     'IDX': [['Pat', 'Pa'], ['Pr', 'Pr'], ['Pu', 'Put'], ['Ps', 'Pst'], ['Pm', 'Pmt'], ['Pk', 'Pkt'], ['Pt', 'P'], ['Rv', 'Rvt'], ['Rvt', 'Rv'],
             ['Rs', 'Rst'], ['Rst', 'Rs'], ['M01', 'M10'], ['M10', 'M01'], ['I4'], ['Pn'], ['Rn']],
     'INV': [['Si', 'S'], ['S', 'Si'], ['Di', 'D'], ['D', 'Di'], ['k2', 'km'], ['I']],
